@@ -4,7 +4,7 @@
   and answer `ok`; `canon<TAB>default|keepall` answers the hex of the model's canonical IR of the
   last completed function.  The field layout is documented in go-src/ssa_export.go.
 -/
-import SfwModel.Model.Canon.Canon
+import SfwModel.Model.Canon.Sem
 open Sfw Sfw.Canon
 namespace Driver
 
@@ -122,6 +122,45 @@ def finishFn (p : PendingFn) : Option Func :=
          freeVars := p.freeVars.toList, results := p.results.toList,
          blocks := blocks, instrs := p.instrs }
 
+/-- an argument of `run`: `i<int>`, `s<hex|->`, `b0|b1`, `l<csv ints|->` -/
+def parseArg (s : String) : Option Sem.Value :=
+  match s.toList with
+  | 'i' :: rest => (String.ofList rest).toInt?.map Sem.Value.int
+  | 's' :: rest => (hexBytes (String.ofList rest)).map Sem.Value.str
+  | ['b', '0'] => some (.bool false)
+  | ['b', '1'] => some (.bool true)
+  | 'l' :: rest =>
+    let body := String.ofList rest
+    if body == "-" then some (.slice []) else ((body.splitOn ",").mapM String.toInt?).map Sem.Value.slice
+  | _ => none
+
+def showSemValue : Sem.Value → String
+  | .int v => "i" ++ toString v
+  | .str bs => "s" ++ (if bs.isEmpty then "-" else hexEncodeBytes bs)
+  | .bool b => if b then "b1" else "b0"
+  | .flt _ => "f?"
+  | .slice xs => "l" ++ (if xs.isEmpty then "-" else String.intercalate "," (xs.map toString))
+  | .elem _ k => "e" ++ toString k
+
+def showSemOutcome : Sem.Outcome → String
+  | .ret vs => "ret:" ++ String.intercalate "," (vs.map showSemValue)
+  | .panic => "panic"
+  | .stuck => "stuck"
+  | .fuelOut => "fuel"
+
+/-- the instruction kinds (and operators) of a function the interpreter has no rule for -/
+def unsupportedKinds (f : Func) : List String :=
+  (f.instrs.toList.filterMap (fun i =>
+    match i.kind with
+    | .BinOp | .Phi | .If | .Jump | .Return | .Panic | .DebugRef | .Convert | .ChangeType
+    | .IndexAddr | .Lookup | .Index => none
+    | .UnOp => if i.op == "-" || i.op == "^" || i.op == "!" || i.op == "*" then none else some ("UnOp" ++ i.op)
+    | .Call =>
+      (match i.opVal 0 with
+       | some (.builtin name) => if name == "len" || name == "cap" then none else some ("Call:" ++ name)
+       | _ => some "Call")
+    | k => some k.name)).eraseDups
+
 def canonStep (st : CanonState) (fs : List String) : CanonState × String :=
   let bad := (st, "bad-op")
   let upd := fun (g : PendingFn → Option PendingFn) =>
@@ -165,6 +204,38 @@ def canonStep (st : CanonState) (fs : List String) : CanonState × String :=
       match finishFn p with
       | some f => ({ pending := none, last := some f }, "ok")
       | none => bad
+  | ["wf"] =>
+    match st.last with
+    | none => bad
+    | some f => (st, if Sem.wfCheck f then "1" else "0")
+  | ["unsupported"] =>
+    match st.last with
+    | none => bad
+    | some f => (st, "u:" ++ String.intercalate "," (unsupportedKinds f))
+  | "run" :: fuel :: args =>
+    match st.last, fuel.toNat?, args.mapM parseArg with
+    | some f, some fuel, some args =>
+      let o := Sem.run f args fuel
+      let v1 := Sem.run (Sem.virtualView f (fun _ => true)) args fuel
+      let v2 := Sem.run (Sem.virtualView f (fun k => k % 2 == 0)) args fuel
+      (st, showSemOutcome o ++ "|" ++ showSemOutcome v1 ++ "|" ++ showSemOutcome v2)
+    | _, _, _ => bad
+  | ["viewtext", pol] =>
+    match st.last with
+    | none => bad
+    | some f =>
+      let policy := if pol == "keepall" then keepAllLiteralsPolicy else defaultLiteralPolicy
+      (st, hexEncode (canonicalIR policy f) ++ "|" ++ hexEncode (canonicalIR policy (Sem.virtualView f (fun _ => true))))
+  | ["viewcanon", pol] =>
+    match st.last with
+    | none => bad
+    | some f =>
+      let policy := if pol == "keepall" then keepAllLiteralsPolicy else defaultLiteralPolicy
+      let base := canonicalIR policy f
+      let same := fun (e : Sem.Exchange) => canonicalIR policy (Sem.virtualView f e) == base
+      let nSwapped := (computeVirtualControlFlow f).swappedBlocks.length
+      (st, (if same (fun _ => true) then "same" else "differs") ++ "|" ++
+           (if same (fun _ => false) then "same" else "differs") ++ "|" ++ toString nSwapped)
   | ["canon", pol] =>
     match st.last with
     | none => bad
